@@ -132,6 +132,11 @@ func parseClauseHead(rest string) (props []string, label string, tier string, bo
 			rest = rest[len(m[0]):]
 			continue
 		}
+		if strings.HasPrefix(rest, "@internal ") {
+			tier = "internal"
+			rest = strings.TrimSpace(rest[len("@internal "):])
+			continue
+		}
 		if strings.HasPrefix(rest, "@thorough ") {
 			tier = "thorough"
 			rest = strings.TrimSpace(rest[len("@thorough "):])
